@@ -67,6 +67,10 @@ def check(index, ctx):
                             ctx.violated("R2", f"{_layout.short_fn(e)}: a sweep that may be the last one always retains the graph",
                                          f"all sweeps over {list(outs)} run inside one loop and this one is called with the literal/default retain_graph=True on some branch "
                                          "(e.g. the single-row, non-vmap branch): when it executes on the last iteration the caller's retain_graph=False is ignored and the graph is never freed", e["loc"])
+                if isinstance(last.get("outputs"), dict) and "filtered" in str(last["outputs"].get("order")):
+                    ctx.violated("R2", f"{run.entry}: the sweep that frees the graph covers every differentiated tensor",
+                                 f"the last sweep over {list(outs)} differentiates a selection of them made by a test on the cotangents' values (`{last['text'][:50]}` receives {last['outputs']['order']}): "
+                                 "with retain_graph=False the parts of the graph that only the skipped tensors reach are never freed", last["loc"])
                 lp = last["retain_graph_pure"] and last["retain_graph_origin"] == ["retain_graph"]
                 if not lp and last["retain_graph_const"] is None and "retain_graph" in (last["retain_graph_origin"] or []):
                     continue  # derived expression: reported (undecided / violated) under R1
